@@ -103,7 +103,11 @@ func (h *storeHandle) Set(ctx context.Context, key string, value []byte) error {
 		return cerrors.Errorf("sim-fault db set %s", key)
 	}
 	if !s.passthrough {
-		d := s.w.park(nil, "db.set", key, h.inc, nil, "db.err")
+		faults := []string{"db.err"}
+		if strings.HasPrefix(key, "pipeline:instance:") {
+			faults = append(faults, "db.stall") // a slow store: this write is held while everything else goes on
+		}
+		d := s.w.park(nil, "db.set", key, h.inc, nil, faults...)
 		if d.fault != "" {
 			s.w.log(Event{Kind: "DB_SET", Ent: key, Inc: h.inc, Err: d.fault})
 			return cerrors.Errorf("sim-fault db set %s", key)
